@@ -30,7 +30,8 @@ def halves(p):
     for h, (a, b) in enumerate(((e0, pt), (pt, e1))):
         v = b - a
         L = float(np.linalg.norm(v))
-        out.append(dict(a=a, b=b, t=v / L, len=L, r=float(p.geo[h].r)))
+        r = p.geo[h].r
+        out.append(dict(a=a, b=b, t=v / L, len=L, r=float(r) if isinstance(r, (int, float, np.floating)) else r))
     return out
 
 
